@@ -258,6 +258,9 @@ class ListGrader(AbstractGrader):
         elif not isinstance(answers_tuple, tuple):  # pragma: no cover
             # Should not get here; voluptuous should catch this beforehand
             raise ConfigError("Answer list must be a list or a tuple of lists")
+        elif not answers_tuple:
+            # An empty tuple is the validated form of an empty list of answers (see above)
+            return tuple()
 
         # Check that all lists in the tuple have the same length
         for answer_list in answers_tuple:
